@@ -101,24 +101,47 @@ func ruleKeyAfterCompare(c *core.Ctx) {
 						return
 					}
 					var cmpArgs []string
-					ok := g.GuardedBy(v, func(a core.Atom) bool {
-						cmp, isCmp := a.AsCmp()
-						if !isCmp || cmp.Op != token.EQL {
-							return false
+					// edges on which a constant-time comparison with the stored
+					// entry is known to have succeeded; the result may be held
+					// in a local that is assigned the comparison in every branch
+					var good []core.EdgeRef
+					for _, bv := range g.BranchVertices() {
+						for _, l := range []core.EdgeLabel{core.EdgeTrue, core.EdgeFalse} {
+							for _, a := range bv.Implied(l) {
+								cmp, isCmp := a.AsCmp()
+								if !isCmp || cmp.Op != token.EQL {
+									continue
+								}
+								k, isK := core.IntConst(info, cmp.R)
+								if !isK || k != 1 {
+									continue
+								}
+								all := true
+								var args []string
+								for _, vc := range valueCases(g, bv, cmp.L, 1) {
+									call, isCall := core.IsCallTo(info, vc.Expr, "crypto/subtle.ConstantTimeCompare")
+									if !isCall {
+										all = false
+										break
+									}
+									// one side must be the stored /U or /O
+									s := core.ExprStr(call.Args[0]) + " " + core.ExprStr(call.Args[1])
+									if !strings.Contains(s, "sec.U") && !strings.Contains(s, "sec.O") {
+										all = false
+										break
+									}
+									args = append(args, sliceBounds(info, call.Args[0])+"|"+sliceBounds(info, call.Args[1]))
+								}
+								if all && len(args) > 0 {
+									good = append(good, core.EdgeRef{From: bv, Label: l})
+									if g.EdgeDominates(v, core.EdgeRef{From: bv, Label: l}) {
+										cmpArgs = append(cmpArgs, args...)
+									}
+								}
+							}
 						}
-						call, isCall := core.IsCallTo(info, cmp.L, "crypto/subtle.ConstantTimeCompare")
-						if !isCall {
-							return false
-						}
-						k, isK := core.IntConst(info, cmp.R)
-						if !isK || k != 1 {
-							return false
-						}
-						cmpArgs = append(cmpArgs, sliceBounds(info, call.Args[0])+"|"+sliceBounds(info, call.Args[1]))
-						// one side must be the stored /U or /O
-						s := core.ExprStr(call.Args[0]) + " " + core.ExprStr(call.Args[1])
-						return strings.Contains(s, "sec.U") || strings.Contains(s, "sec.O")
-					})
+					}
+					ok := len(good) > 0 && g.EdgeDominates(v, good...)
 					if !ok {
 						o.Fail("the key is stored on a path that does not pass the edge 'ConstantTimeCompare(..., sec.U|sec.O) == 1'")
 						return
@@ -227,7 +250,7 @@ func ruleKeyReaders(c *core.Ctx) {
 					return true
 				}
 				o.At(fn.Site(e, "reads sec.key"))
-				if _, ok := allowed[fn.Key]; !ok {
+				if !allowedOrOnlyCalledBy(c, fn, func(k string) bool { _, ok := allowed[k]; return ok }, 0) {
 					o.FailAt(fn.Site(e, ""), "%s reads the file key but is not in the table of key-handling functions", fn.Key)
 				}
 				return true
@@ -610,124 +633,83 @@ func rulePermTables(c *core.Ctx) {
 			}
 		}
 	})
-	c.Check(rule, "pdf.stdSecPToPerm", "the reader's permission table is the inverse of the writer's: same bits, same flags, and the nesting that closes the result under the documented implications", func(o *core.Ob) {
+	c.Check(rule, "pdf.stdSecPToPerm", "the reader's permission table is the inverse of the writer's: same bits, same flags, and the nesting that closes the result under the documented implications — tabulated for revisions 2 to 6 and all 128 settings of the seven permission bits", func(o *core.Ob) {
 		fn := c.Prog.Func("pdf", "stdSecPToPerm")
-		info := fn.Info()
-		// collect all (condition bits, cleared flags) with structure
-		type ent struct {
-			cond    string // normalised: e.g. "3=0&12=0"
-			clears  string
-			parent  string
-			isElse  bool
-			rBranch string
-		}
-		var ents []ent
-		normCond := func(e ast.Expr) string {
-			var parts []string
-			var walk func(e ast.Expr)
-			walk = func(e ast.Expr) {
-				e = ast.Unparen(e)
-				be, ok := e.(*ast.BinaryExpr)
-				if !ok {
-					core.Undecided("stdSecPToPerm: condition %s", core.ExprStr(e))
-				}
-				if be.Op == token.LAND {
-					walk(be.X)
-					walk(be.Y)
-					return
-				}
-				if (be.Op == token.EQL || be.Op == token.NEQ) && isZero(info, be.Y) {
-					and, ok := ast.Unparen(be.X).(*ast.BinaryExpr)
-					if ok && and.Op == token.AND {
-						b, ok := bitOf(info, and.Y)
-						if ok {
-							v := "0"
-							if be.Op == token.NEQ {
-								v = "1"
-							}
-							parts = append(parts, itoa(b)+"="+v)
-							return
-						}
-					}
-				}
-				if be.Op == token.EQL || be.Op == token.GEQ {
-					if core.ExprStr(be.X) == "R" {
-						parts = append(parts, "R"+be.Op.String()+core.ExprStr(be.Y))
-						return
-					}
-				}
-				core.Undecided("stdSecPToPerm: condition %s", core.ExprStr(e))
-			}
-			walk(e)
-			return strings.Join(parts, "&")
-		}
-		clearsOf := func(body *ast.BlockStmt) string {
-			var fl []string
-			for _, s := range body.List {
-				if as, ok := s.(*ast.AssignStmt); ok && as.Tok == token.AND_ASSIGN {
-					r := core.ExprStr(as.Rhs[0])
-					r = strings.TrimPrefix(r, "^")
-					r = strings.Trim(r, "()")
-					for _, f := range strings.Split(r, "|") {
-						fl = append(fl, strings.TrimSpace(f))
-					}
+		o.At(fn.Site(fn.Decl, ""))
+		flag := func(n string) int64 { return c.Prog.ConstInt("pdf", n) }
+		all := flag("PermAll")
+		bits := []int{3, 4, 5, 6, 9, 11, 12}
+		var pdom []int64
+		for m := 0; m < 1<<len(bits); m++ {
+			var p int64
+			for i, b := range bits {
+				if m&(1<<i) != 0 {
+					p |= 1 << (b - 1)
 				}
 			}
-			sort.Strings(fl)
-			return strings.Join(fl, "|")
+			pdom = append(pdom, p)
 		}
-		var walk func(stmts []ast.Stmt, parent string)
-		walk = func(stmts []ast.Stmt, parent string) {
-			for _, s := range stmts {
-				is, ok := s.(*ast.IfStmt)
-				for ok {
-					cond := normCond(is.Cond)
-					if strings.HasPrefix(cond, "R") {
-						walk(is.Body.List, parent+"["+cond+"]")
-					} else {
-						cl := clearsOf(is.Body)
-						ents = append(ents, ent{cond: cond, clears: cl, parent: parent})
-						o.At(fn.Site(is, "P "+cond+" -> clears "+cl))
-						walk(is.Body.List, parent+"{"+cond+"}")
-					}
-					next, isIf := is.Else.(*ast.IfStmt)
-					if is.Else != nil && !isIf {
-						core.Undecided("stdSecPToPerm: plain else")
-					}
-					is, ok = next, isIf
+		// ISO 32000-2 Table 22 (and the writer's table stdSecPermToP)
+		want := func(R, P int64) int64 {
+			bit := func(i int) bool { return P&(1<<(i-1)) != 0 }
+			perm := all
+			switch {
+			case R == 2:
+				if !bit(3) {
+					perm &^= flag("PermPrint") | flag("PermPrintDegraded")
+				}
+			case R >= 3:
+				if !bit(3) && !bit(12) {
+					perm &^= flag("PermPrint") | flag("PermPrintDegraded")
+				} else if bit(3) && !bit(12) {
+					perm &^= flag("PermPrint")
 				}
 			}
-		}
-		walk(fn.Decl.Body.List, "")
-		var got []string
-		for _, e := range ents {
-			got = append(got, e.parent+" "+e.cond+" -> "+e.clears)
-		}
-		sort.Strings(got)
-		wantEnts := []string{
-			" 4=0 -> PermModify",
-			" 5=0 -> PermCopy",
-			" 6=0 -> PermAnnotate",
-			"[R==2] 3=0 -> PermPrint|PermPrintDegraded",
-			"[R>=3] 3=0&12=0 -> PermPrint|PermPrintDegraded",
-			"[R>=3] 3=1&12=0 -> PermPrint",
-			"{4=0} 11=0 -> PermAssemble",
-			"{6=0} 9=0 -> PermForms",
-		}
-		sort.Strings(wantEnts)
-		o.Count(len(wantEnts))
-		if strings.Join(got, "; ") != strings.Join(wantEnts, "; ") {
-			o.Fail("reader permission table is\n      %s\n    expected (ISO 32000-2 Table 22 and the writer's table)\n      %s", strings.Join(got, "\n      "), strings.Join(wantEnts, "\n      "))
-		}
-		// starts from PermAll
-		startOK := false
-		ast.Inspect(fn.Decl.Body, func(n ast.Node) bool {
-			if as, ok := n.(*ast.AssignStmt); ok && as.Tok == token.DEFINE && core.ExprStr(as.Lhs[0]) == "perm" && core.ExprStr(as.Rhs[0]) == "PermAll" {
-				startOK = true
+			if !bit(4) {
+				perm &^= flag("PermModify")
+				if !bit(11) {
+					perm &^= flag("PermAssemble")
+				}
 			}
-			return true
+			if !bit(5) {
+				perm &^= flag("PermCopy")
+			}
+			if !bit(6) {
+				perm &^= flag("PermAnnotate")
+				if !bit(9) {
+					perm &^= flag("PermForms")
+				}
+			}
+			return perm
+		}
+		params := fn.Decl.Type.Params.List
+		if len(params) == 0 {
+			core.Undecided("stdSecPToPerm has no parameters")
+		}
+		var names []string
+		for _, f := range params {
+			for _, n := range f.Names {
+				names = append(names, n.Name)
+			}
+		}
+		if len(names) != 2 {
+			core.Undecided("stdSecPToPerm: expected the parameters (R, P)")
+		}
+		bad := 0
+		decided, reason := c.Prog.TabulateFunc(fn, map[string][]int64{names[0]: {2, 3, 4, 5, 6}, names[1]: pdom}, func(env map[string]int64, got int64, _ bool) {
+			o.Count(1)
+			R, _ := core.EnvGet(env, names[0])
+			P, _ := core.EnvGet(env, names[1])
+			if w := want(R, P); got&all != w&all {
+				bad++
+				if bad <= 3 {
+					o.Fail("for revision %d and /P bits %#x the reader grants %#x, Table 22 and the writer's table say %#x", R, P, got&all, w&all)
+				}
+			}
 		})
-		o.Require(startOK, "stdSecPToPerm must start from PermAll and only clear flags")
+		if !decided {
+			core.Undecided("stdSecPToPerm not tabulated: %s", reason)
+		}
 	})
 	c.Check(rule, "pdf.Perm.canR2", "revision 2 is chosen exactly for the permission sets it can express: a revision-2 reader grants the lower permission of each pair with the upper one (print/degraded print, annotate/forms, modify/assemble), so canR2 must be false whenever a lower permission is requested without its upper one — tabulated for all 128 permission sets", func(o *core.Ob) {
 		fn := c.Prog.Func("pdf", "Perm.canR2")
